@@ -107,7 +107,9 @@ def build_static(timeout: int = 1800) -> tuple[bool, str]:
     """(Re)build the static development under a lock; a no-op when up to date."""
     lock = COQ / ".build.lock"
     # regenerate the file list whenever the set of .v files changed
-    files = sorted(str(p.relative_to(COQ)) for p in THEORIES.rglob("*.v"))
+    # files named in coq/WIP (work in progress by a builder, one path per line) are left out of the build
+    wip = set((COQ / "WIP").read_text().split()) if (COQ / "WIP").exists() else set()
+    files = sorted(str(p.relative_to(COQ)) for p in THEORIES.rglob("*.v") if str(p.relative_to(COQ)) not in wip)
     listing = COQ / "_CoqProject.files"
     want = (COQ / "_CoqProject").read_text() + "\n".join(files) + "\n"
     if not listing.exists() or listing.read_text() != want:
